@@ -87,6 +87,8 @@ def objects_of(block):
             ids[id(net.op_param[1])] = 'mem ' + net.op_param[1].name
     for m in block.memblock_by_name.values():
         ids[id(m)] = 'mem ' + m.name
+    # the set of primitives a block admits is the block's own too: its owner narrows it in place
+    ids[id(block.legal_ops)] = 'the legal_ops set'
     return ids
 
 
